@@ -82,6 +82,10 @@ MECH_NONFINITE = 'nonfinite_without_error_exit'
 ATOL_DEFAULT = inspect.signature(
     PinModel.calculate_temperatures).parameters['atol'].default
 ORD_SLACK = 1e-9        # K, round-off of sums of ~1e3 K terms
+# An iterate that moved by <= atol is within L*atol of the fixed point (L =
+# contraction factor of the successive substitution, computed by the oracle);
+# measured worst case is 1.03 L*atol, asserted with this margin.
+SAFETY = 2.0
 NAMES = ['coolant', 'clad_od', 'clad_mw', 'clad_id', 'fuel_od', 'fuel_cl']
 
 
@@ -333,7 +337,7 @@ def contract(res, ref, key, q, Tc, h, atol, out, cap):
     with np.errstate(all='ignore'):
         rr = np.min([np.abs((Ti - To) - c_cl / kb) for kb in cands], axis=0)
         Lc, _ = pr.layer_sensitivities(kc, To, Ti - To, c_cl)
-    tol_c = (1.5 * Lc + 1e-3) * atol + 1e-10 * Tabs
+    tol_c = (SAFETY * Lc + 1e-3) * atol + 1e-10 * Tabs
     i, w = _worst(np.where(v, rr / tol_c, 0.0))
     res.stat('clad_drop_resid_K', float(np.max(np.where(v, rr, 0.0))))
     res.stat('clad_drop_resid_over_tol', w)
@@ -383,7 +387,7 @@ def contract(res, ref, key, q, Tc, h, atol, out, cap):
             Lg = np.abs(ref.gap_map(q, Ti, Tf + hh)
                         - ref.gap_map(q, Ti, Tf - hh)) / (2 * hh)
         rg = np.minimum(r1, r2)
-        tol_g = (1.5 * Lg + 1e-3) * atol + 1e-10 * Tabs
+        tol_g = (SAFETY * Lg + 1e-3) * atol + 1e-10 * Tabs
         i, w = _worst(np.where(v, rg / tol_g, 0.0))
         res.stat('gap_drop_resid_K', float(np.max(np.where(v, rg, 0.0))))
         res.stat('gap_drop_resid_over_tol', w)
@@ -401,7 +405,7 @@ def contract(res, ref, key, q, Tc, h, atol, out, cap):
     err = np.zeros(n)
     for i in reversed(range(nz)):
         with np.errstate(all='ignore'):
-            err = Ss[i] * err + (1.5 * Ls[i] + 1e-3) * atol
+            err = Ss[i] * err + (SAFETY * Ls[i] + 1e-3) * atol
     tol_l = err + 1e-10 * Tabs
     info['tol_cl'] = tol_l
     rl = np.abs(Tl - N[0])
@@ -438,7 +442,7 @@ def contract(res, ref, key, q, Tc, h, atol, out, cap):
                     np.abs((Tin - Tout) - c / pr.kmean_ends(kf, Tout, Tin)),
                     np.abs((Tin - Tout) - c / pr.kmean_exact(kf, Tout, Tin)))
                 Li, _ = pr.layer_sensitivities(kf, Tout, Tin - Tout, c)
-            tol_i = (1.5 * Li + 1e-3) * atol + 1e-10 * Tabs
+            tol_i = (SAFETY * Li + 1e-3) * atol + 1e-10 * Tabs
             j, w = _worst(np.where(v, ra / tol_i, 0.0))
             mech = 'fuel_shell'
             if w > 1.0 and ref.annular:
@@ -703,13 +707,13 @@ class RegionMonitor(object):
 def cases(tier, seed):
     q = (tier == 'quick')
     out = []
-    for i in range(200 if q else 1500):
+    for i in range(200 if q else 2400):
         out.append({'name': 'direct-%d' % i, 'kind': 'direct',
                     'seed': [seed, 1, i], 'tier': tier})
-    for i in range(44 if q else 300):
+    for i in range(44 if q else 450):
         out.append({'name': 'sweep-%d' % i, 'kind': 'sweep',
                     'seed': [seed, 2, i], 'tier': tier})
-    for i in range(6 if q else 30):
+    for i in range(6 if q else 45):
         out.append({'name': 'core-%d' % i, 'kind': 'core',
                     'seed': [seed, 3, i], 'tier': tier})
     rings = [2, 3, 4, 5, 6, 8] if q else list(range(2, 13)) + [15]
